@@ -279,6 +279,38 @@ def auto_discharge(P, fn, info):
                     return "D-STRINGFMT: <String as fmt::Write>::write_fmt cannot fail"
                 if f and f["name"].endswith("Regex::new") and ds[0][3]["args"] and ds[0][3]["args"][0][0] == "k":
                     return "CONST-REGEX: constant pattern"
+    if kind == "precond" and info["detail"].endswith("Vec::<T, A>::insert") and len(t["args"]) >= 2:
+        a = t["args"][1]
+        if a[0] == "k" and isinstance(a[1], dict) and a[1].get("val") == 0:
+            return "D-INSERT0: Vec::insert(0, _) is within bounds for every length"
+        ol = op_local(a)
+        if ol and not ol[1]:
+            from mirutil import defs_of
+            ds = defs_of(fn, ol[0])
+            if len(ds) == 1 and ds[0][0] == "a" and ds[0][3]["k"] == "use" and ds[0][3]["o"][0] == "k" and ds[0][3]["o"][1].get("val") == 0:
+                return "D-INSERT0: Vec::insert(0, _) is within bounds for every length"
+    return None
+
+
+def _adopt_moved(P, c, ledger, key, info, adopted):
+    """A human-reviewed ledger line (L-REASON / D-LOCAL) whose site no longer exists, for the same kind of site and the same
+    callee, in a function that calls / is called by this site's function: the code moved into or out of a private helper."""
+    fn = info["fn"]
+    rest = key.split("|", 1)[1].rsplit("#", 1)[0]
+    g = P.callgraph()
+    for k2, (cls, reason) in sorted(ledger.items()):
+        if k2 in c or k2 in adopted or "|" not in k2 or cls.split(":")[0] not in ("L-REASON", "D-LOCAL"):
+            continue
+        f2, rest2 = k2.split("|", 1)
+        if rest2.rsplit("#", 1)[0] != rest:
+            continue
+        cands = [f for f in P.fns.values() if f.key == f2 or f.id == f2]
+        for other in cands:
+            if other.file != fn.file:
+                continue
+            if fn.id in g.get(other.id, ()) or other.id in g.get(fn.id, ()):
+                adopted.add(k2)
+                return k2
     return None
 
 
@@ -290,6 +322,7 @@ def run(P, rep, g, scope, rule="R-PANIC"):
     n = 0
     seen_keys = set()
     slice_fns = []
+    adopted = set()
     for key, info in sorted(c.items()):
         if scope == "parse" and not info["in_parse"]:
             continue
@@ -317,6 +350,12 @@ def run(P, rep, g, scope, rule="R-PANIC"):
             rep.ok(rule, key, where, auto)
             continue
         if key not in ledger:
+            moved = _adopt_moved(P, c, ledger, key, info, adopted)
+            if moved:
+                rep.ok(rule, key, where, "%s — reviewed reason of %s adopted: the site moved between a function and its private helper (%s)" % (
+                    ledger[moved][0].split(":")[0], moved, ledger[moved][1]))
+                rep.trusted.add("ledger/panic_sites.tsv: %s (adopted by %s)" % (moved, key))
+                continue
             rep.viol(rule, key, where,
                      "unjustified panic-capable site (%s %s) reachable from %s: no grammar fact, guard or reviewed reason discharges it"
                      % (kind, detail, "parsing" if info["in_parse"] else "rendering"))
